@@ -17,21 +17,21 @@ type m3 [3][3]float64
 type m4 [4][4]float64
 type q4 [4]float64 // x, y, z, w
 
-func vOf(v vector3.Float64) v3 { return v3{v.X(), v.Y(), v.Z()} }
+func vOf(v vector3.Float64) v3    { return v3{v.X(), v.Y(), v.Z()} }
 func (a v3) vec() vector3.Float64 { return vector3.New(a[0], a[1], a[2]) }
 
-func vadd(a, b v3) v3        { return v3{a[0] + b[0], a[1] + b[1], a[2] + b[2]} }
-func vsub(a, b v3) v3        { return v3{a[0] - b[0], a[1] - b[1], a[2] - b[2]} }
+func vadd(a, b v3) v3           { return v3{a[0] + b[0], a[1] + b[1], a[2] + b[2]} }
+func vsub(a, b v3) v3           { return v3{a[0] - b[0], a[1] - b[1], a[2] - b[2]} }
 func vscale(a v3, s float64) v3 { return v3{a[0] * s, a[1] * s, a[2] * s} }
-func vmul(a, b v3) v3        { return v3{a[0] * b[0], a[1] * b[1], a[2] * b[2]} }
-func vneg(a v3) v3           { return v3{-a[0], -a[1], -a[2]} }
-func vdot(a, b v3) float64   { return a[0]*b[0] + a[1]*b[1] + a[2]*b[2] }
+func vmul(a, b v3) v3           { return v3{a[0] * b[0], a[1] * b[1], a[2] * b[2]} }
+func vneg(a v3) v3              { return v3{-a[0], -a[1], -a[2]} }
+func vdot(a, b v3) float64      { return a[0]*b[0] + a[1]*b[1] + a[2]*b[2] }
 func vcross(a, b v3) v3 {
 	return v3{a[1]*b[2] - a[2]*b[1], a[2]*b[0] - a[0]*b[2], a[0]*b[1] - a[1]*b[0]}
 }
 
 // vnorm is overflow-safe.
-func vnorm(a v3) float64 { return math.Hypot(math.Hypot(a[0], a[1]), a[2]) }
+func vnorm(a v3) float64    { return math.Hypot(math.Hypot(a[0], a[1]), a[2]) }
 func vdist(a, b v3) float64 { return vnorm(vsub(a, b)) }
 func vunit(a v3) v3 {
 	n := vnorm(a)
